@@ -873,12 +873,16 @@ func (c *compiler) evalCallExpression(node *ast.CallExpression) (interface{}, er
 					block:    node.Block,
 				}
 				harg := reflect.ValueOf(hargs)
-				if !harg.Type().AssignableTo(arg) {
-					// e.g. type MyContext plush.HelperContext
-					harg = harg.Convert(arg)
+				if harg.Type().AssignableTo(arg) {
+					args = append(args, harg)
+					return
 				}
-				args = append(args, harg)
-				return
+				if harg.Type().ConvertibleTo(arg) {
+					// e.g. type MyContext plush.HelperContext
+					args = append(args, harg.Convert(arg))
+					return
+				}
+				// a wider interface, or a pointer to a context: not a parameter to fill in
 			}
 
 			if arg.ConvertibleTo(reflect.TypeOf(map[string]interface{}{})) {
